@@ -133,7 +133,7 @@ public:
 	std::vector<CConn> cc;
 	size_t next_op = 0;
 	size_t step_no = 0;
-	uint64_t next_id = 1;
+	uint64_t next_id = 2001; // (never equal to one of the fixed ids of the RAWREQ shapes: 0, 1, 100, 1000, ...)
 	enum Phase { START, RUN, CLOSING, PROBE, TERM, DONE, DRAINED, CENSUS } phase = START;
 	// baseline
 	long base_alloc_calls = 0;
